@@ -283,7 +283,23 @@ def gen_rt(rng, tier):
         frames[i:i + 1] = [dict(frames[i]) for _ in range(k)]
         for f in frames:
             f["mark"] = None
-    elif r < 0.24:
+    elif r < 0.13 and frames:
+        # near-repeats: a run of 4-6 entries that differ in exactly one of file / line / function (the
+        # interpreter folds only entries equal in all three), possibly mixed with true repeats
+        i = rng.randrange(len(frames))
+        base = dict(frames[i], mark=None)
+        which = rng.choice(["path", "lineno", "func"])
+        run = []
+        for k in range(rng.randint(4, 6)):
+            f = dict(base)
+            if rng.random() < 0.6:
+                f[which] = {"path": base["path"] + "x", "lineno": base["lineno"] + "1", "func": base["func"] + "_"}[which] \
+                    if k % 2 else base[which]
+            run.append(f)
+        frames[i:i + 1] = run
+        for f in frames:
+            f["mark"] = None
+    elif r < 0.27:
         _break_one(rng, case)
     return case
 
@@ -406,6 +422,11 @@ RAW_SEEDS = [
     'Traceback (most recent call last):x\n  File "a.py", line 1, in f\nE',
     'Traceback (most recent call last)::\nE: m', 'traceback (most recent call last):\nE',
     'Traceback (most recent call last): \nE\nExceptions ignored',
+    'Traceback (most recent call last):\n  [Previous line repeated 2 more times]\nE: m',
+    'Traceback (most recent call last):\n[Previous line repeated 1 more time]\n  File "a", line 1, in f\nE',
+    '  [Previous line repeated 3 more times]\n  File "x.py", line 3\n    x = (\n        ^\nSyntaxError: bad',
+    'Traceback (most recent call last):\n  File "a", line 1, in f\n  [Previous line repeated 2 more times]\n  [Previous line repeated 1 more time]\nE',
+    'Traceback (most recent call last):\n  File "a", line 1, in f\n    s\n  [Previous line repeated 0 more times]\nE: m',
 ]
 
 
@@ -475,6 +496,11 @@ EXC_MSGS = [None, "", "boom", "a: b", "l1\nl2", "\u00fcn\u00ef \u2713", "  space
 
 def gen_ei(rng, tier, mods=None, depths=(1, 1, 2, 3, 3, 4, 5, 6, 8, 12), probe=False):
     depth = rng.choice(depths)
+    # sometimes: every callable exec'd under one shared pseudo file name, so that consecutive entries agree
+    # in file and line and differ in the function name only
+    shared_exec = rng.random() < 0.06
+    if shared_exec:
+        depth = max(depth, rng.choice([4, 5, 6]))
     if mods is None:
         mods = rng.sample(MODNAMES, rng.choice([1, 1, 2, 3]))
     src = {m: ["import sys", "class _Ctx:\n    def __enter__(self):\n        return self\n    def __exit__(self, *a):\n        return False"]
@@ -487,7 +513,7 @@ def gen_ei(rng, tier, mods=None, depths=(1, 1, 2, 3, 3, 4, 5, 6, 8, 12), probe=F
     for i in range(depth):
         m = where[i]
         nx = ("c%d" % (i + 1)) if where[i + 1] == m else "%s.c%d" % (where[i + 1], i + 1)
-        kind = rng.choice(KINDS)
+        kind = "exec" if shared_exec else rng.choice(KINDS)
         stmt = rng.choice(STMTS).format(nx=nx)
         if kind == "func":
             if rng.random() < 0.15:
@@ -512,7 +538,8 @@ def gen_ei(rng, tier, mods=None, depths=(1, 1, 2, 3, 3, 4, 5, 6, 8, 12), probe=F
             k = rng.choice([0, 1, 2, 2, 3, 3, 4, 5, 6])
             code = "def c%d(n, d=%d):\n    if d:\n        return c%d(n, d - 1)\n    return %s(n)" % (i, k, i, nx)
         elif kind == "exec":
-            code = 'exec(compile("def c%d(n):\\n    return %s(n)\\n", "<gen%d>", "exec"), globals())' % (i, nx, i)
+            code = 'exec(compile("def c%d(n):\\n    return %s(n)\\n", "%s", "exec"), globals())' % (
+                i, nx, "<gen>" if shared_exec else "<gen%d>" % i)
         elif kind == "deco":
             code = ("def deco%d(f):\n    def wrapper(*a):\n        return f(*a)\n    return wrapper\n@deco%d\ndef c%d(n):\n    %s"
                     % (i, i, i, stmt))
@@ -840,6 +867,7 @@ def _capture(exc, tb, step, d, mods):
         tbutils.print_exception(et, exc, tb, file=buf)
         obs["print"] = buf.getvalue()
         obs["parsed"] = _parse_obs(obs["fmt"])[0]
+        obs["ctx"] = tbutils.ContextualExceptionInfo.from_exc_info(et, exc, tb).get_formatted()
     # ---- the interpreter's view, now ---------------------------------------------------------
     summ = traceback.extract_tb(tb)
     live = [{"file": fs.filename, "lineno": fs.lineno, "name": fs.name, "raw": fs._original_line} for fs in summ]
@@ -1066,7 +1094,8 @@ def _ei_args(I, obs, tuple_=False):
                                           "None" if e["str"] is None else "(Some %s)" % I.t(e["str"]), I.t(e["shown"]))
         frames = clist("mkCpObs %s %s %s %s" % (I.s(f["path"]), cN(f["lineno"]), I.s(f["func"]), I.s(f["line"])) for f in obs["frames"])
         if "tbi" in obs:
-            more = "(Some (%s, %s, %s, %s))" % (I.t(obs["tbi"]), I.t(obs["feo"]), I.t(obs["print"]), _res_tb(I, obs["parsed"]))
+            more = "(Some (%s, %s, %s, %s, %s))" % (I.t(obs["tbi"]), I.t(obs["feo"]), I.t(obs["print"]), _res_tb(I, obs["parsed"]),
+                                                     I.t(obs["ctx"]))
         else:
             more = "None"
         o = "(mkEiObs %s %s %s %s %s %s)" % (frames, I.s(obs["type"]), I.t(obs["msg"]), I.t(obs["fmt"]), I.t(obs["only"]), more)
